@@ -2,17 +2,19 @@
    Only statements; proofs live in Proofs/C02_*.v, the executable models in Model/{StepLaw,Bst,Alias,Huffman,
    Table,Inversion,BstAdapted}.v (tied to /repo by the vm_compute correspondence of harness/props/C02.py).
    The law of a sampler is expressed without measure theory: the sampler is the step function `locate`
-   (left-closed) or `locate_r` (right-closed) of an explicit list of consecutive labelled intervals, and the
-   total length labelled k (`len_of k`) equals p_k. *)
-From Coq Require Import List Arith ZArith QArith.
-From RV Require Import Base.QB Gen.GenPairing Model.Pairing Model.StepLaw Model.Bst Model.Inversion
-  Proofs.C02_StepLaw Proofs.C02_Bst Proofs.C02_Inversion.
+   (left-closed intervals) or `locate_r` (right-closed) of an explicit list of consecutive labelled intervals
+   laid out from 0, and the total length labelled k (`len_of k`) equals p_k.  nonneg p: entries >= 0
+   (zeros and ties allowed); any length >= 1. *)
+From Coq Require Import List Arith ZArith QArith Permutation.
+From RV Require Import Base.QB Gen.GenPairing Model.Pairing Model.StepLaw Model.Bst Model.Alias Model.Huffman Model.Table
+  Model.Inversion Model.BstAdapted
+  Proofs.C02_StepLaw Proofs.C02_Bst Proofs.C02_Inversion Proofs.C02_Huffman Proofs.C02_BstAdapted Proofs.C02_Alias
+  Proofs.C02_Table Proofs.C02_Refuted.
 Import ListNotations.
 Open Scope Q_scope.
 
-(* BinarySearchTree: for every vector of >= 1 non-negative entries the constructor succeeds and the descent is
-   the step function whose consecutive intervals (the leaves of the implicit heap in in-order) have length p_s
-   for state s; every state owns exactly p_s. *)
+(* BinarySearchTree: the constructor succeeds and the descent is the step function whose consecutive intervals
+   (the leaves of the implicit heap in in-order) have length p_s for state s *)
 Theorem C02_bst_law : forall p : list Q, (1 <= length p)%nat -> nonneg p ->
   exists b, create_bst p = Some b
     /\ (forall s, (s < length p)%nat -> len_of (Z.of_nat s) (bst_segs p) == nth s p 0)
@@ -39,10 +41,97 @@ Theorem C02_inversion_law : forall (S : Type) (proj : Z -> S) (Fn : nat) (prob :
   /\ seg_nonneg (spec_segs proj Fn prob)
   /\ (forall u k, 0 < u -> prob (proj (Z.of_nat k)) == 0 -> (k <= Fn)%nat ->
         locate_r 0 (spec_segs proj Fn prob) u <> Some (Z.of_nat k)).
-Proof.
-  intros S proj Fn prob Hp. split; [intro u; apply spec_is_locate|]. apply inversion_law. exact Hp.
-Qed.
+Proof. exact @inversion_law_full. Qed.
+
+(* HuffmanTree: whatever position Heap.insert computes, the final tree's leaves are a permutation of the states
+   and subtract-and-descend is the step function of the leaves in in-order *)
+Theorem C02_huffman_law : forall p : list Q, (1 <= length p)%nat -> nonneg p ->
+  exists t, create_huffman p = Some t
+    /\ Permutation (hleaves t) (segs_from 0 p)
+    /\ (forall s, (s < length p)%nat -> len_of (Z.of_nat s) (hleaves t) == nth s p 0)
+    /\ total (hleaves t) == qsum p
+    /\ seg_nonneg (hleaves t)
+    /\ forall u, 0 <= u -> u < qsum p -> locate 0 (hleaves t) u = Some (huff_sample t u).
+Proof. exact huffman_law. Qed.
+
+(* AliasMethod (Walker/Vose): column x of [0,1) is [x/K,(x+1)/K), its first q_x/K goes to x, the rest to J x;
+   state k owns exactly p_k; indices are < K; a state of probability zero is never returned *)
+Theorem C02_alias_law : forall p : list Q, (1 <= length p)%nat -> nonneg p -> qsum p == 1 ->
+  let K := length p in let J := fst (create_alias p) in let q := snd (create_alias p) in
+  let segs := alias_segs K q J in
+  (forall k, (k < K)%nat -> len_of (Z.of_nat k) segs == nth k p 0)
+  /\ seg_nonneg segs
+  /\ (forall u, 0 <= u -> u < 1 -> locate 0 segs u = Some (Z.of_nat (alias_draw K q J u)))
+  /\ (forall u, 0 <= u -> u < 1 -> (alias_draw K q J u < K)%nat)
+  /\ (forall u k, 0 <= u -> u < 1 -> (k < K)%nat -> nth k p 0 == 0 -> alias_draw K q J u <> k).
+Proof. exact alias_law. Qed.
+
+(* BinarySearchTreeAdapted1D with an additive non-negative interval mass: right-closed step function over the
+   cells of the left then of the right half axis, lengths mass(cell)/lambda; never the origin, never outside *)
+Theorem C02_bstadapted1d_law : forall (axis : list Q) (o : Z) (middle mass : Q -> Q -> Q) (lam h minf : Q),
+  0 < lam -> (1 <= o)%Z /\ (o + 1 <= ba_n axis - 1)%Z ->
+  (forall a b c, a <= b -> b <= c -> mass a c == mass a b + mass b c) ->
+  (forall a b, a <= b -> 0 <= mass a b) ->
+  (forall k, (0 <= k < ba_n axis)%Z -> ba_cell_a axis middle k <= ba_cell_b axis middle k) ->
+  mass minf (- (h / 2)) == mass (ba_cell_a axis middle 0) (ba_cell_b axis middle (o - 1)) ->
+  let segs := ba_segs axis o middle mass lam in
+  (forall u, ba_sample axis o middle mass lam h minf u
+             = match locate_r 0 segs u with Some lab => lab | None => (ba_n axis - 1 - o)%Z end)
+  /\ (forall k, (0 <= k < ba_n axis)%Z -> k <> o ->
+        len_of (k - o) segs == mass (ba_cell_a axis middle k) (ba_cell_b axis middle k) / lam)
+  /\ len_of 0 segs == 0
+  /\ seg_nonneg segs
+  /\ (forall lab, In lab (map snd segs) -> (- o <= lab <= ba_n axis - 1 - o)%Z /\ lab <> 0%Z)
+  /\ (forall u k, 0 < u -> (0 <= k < ba_n axis)%Z -> k <> o ->
+        mass (ba_cell_a axis middle k) (ba_cell_b axis middle k) == 0 -> locate_r 0 segs u <> Some (k - o)%Z).
+Proof. exact bstadapted1d_full. Qed.
+
+(* TableMethod (repaired tree): the constructor succeeds; with the byte b uniform on 0..255 and the alias uniform
+   independent of it (table_draw t b u = J b if J b >= 0, else the alias draw with u), state k receives
+   #{b : J b = k}/256 + #{b : J b = -1}/256 * (alias mass of k) = p_k; J has 256 slots with values in [-1, K) *)
+Theorem C02_table_law : forall p : list Q, (1 <= length p)%nat -> nonneg p -> qsum p == 1 ->
+  create_table p <> TableError
+  /\ (forall k, (k < length p)%nat -> table_mass (create_table p) k == nth k p 0)
+  /\ length (table_J p) = 256%nat
+  /\ (forall b, (-1 <= nth b (table_J p) (-1) < Z.of_nat (length p))%Z).
+Proof. exact table_law. Qed.
+
+(* alias / table / bst / huffman / bstadapted draws are functions of the tables built at construction: the
+   models thread no state, so a sequence of draws is a map (a cache added later has to be justified here) *)
+Theorem C02_no_history : forall (T A : Type) (draw : T -> Q -> A) (tables : T) (us : list Q) (i : nat),
+  nth_error (run_pure draw tables us) i = option_map (draw tables) (nth_error us i).
+Proof. exact @no_history. Qed.
+
+(* F-C02-6 (recorded finding, current tree): the right-closed samplers send u = 0 to the first enumerated state
+   even when its probability is zero *)
+Theorem C02_inversion_zero_uniform_refuted :
+  exists st, inv_init zu_proj (fun _ => true) 1 zu_prob = Some st
+             /\ snd (inv_step zu_proj (fun _ => true) 1 zu_prob 1000000 st 0) = Out 1%Z
+             /\ zu_prob 1 == 0.
+Proof. exact inversion_zero_uniform_refuted. Qed.
+Theorem C02_bstadapted1d_zero_uniform_refuted :
+  let axis := [-(1); 0; 1] in let mass := step_mass [(1 # 2, 1, 2)] in
+  ba_sample axis 1 mid_arith mass 1 1 (-(2)) 0 = (-1)%Z
+  /\ mass (ba_cell_a axis mid_arith 0) (ba_cell_b axis mid_arith 0) == 0.
+Proof. exact bstadapted1d_zero_uniform_refuted. Qed.
+
+(* non-vacuity: the models compute, on a vector with a zero and a tie *)
+Example C02_nonvacuous :
+  let p := [1 # 4; 0; 1 # 2; 1 # 4] in
+  create_bst p = Some [1 # 4; 1 # 4; 6 # 8; 1 # 4]
+  /\ map (fun u => bst_sample 3 [1 # 4; 1 # 4; 6 # 8; 1 # 4] u) [0; 1 # 4; 1 # 2; 3 # 4] = [0; 2; 2; 3]%Z
+  /\ fst (create_alias p) = [0; 3; 0; 2]%nat
+  /\ option_map (fun t => map (huff_sample t) [0; 1 # 4; 1 # 2; 3 # 4]) (create_huffman p) = Some [3; 0; 2; 2]%Z
+  /\ z1d_project (-2) 5 1 6 = 5%Z.
+Proof. vm_compute. repeat split. Qed.
 
 Print Assumptions C02_bst_law.
 Print Assumptions C02_inversion_history_free.
 Print Assumptions C02_inversion_law.
+Print Assumptions C02_huffman_law.
+Print Assumptions C02_alias_law.
+Print Assumptions C02_bstadapted1d_law.
+Print Assumptions C02_table_law.
+Print Assumptions C02_no_history.
+Print Assumptions C02_inversion_zero_uniform_refuted.
+Print Assumptions C02_bstadapted1d_zero_uniform_refuted.
